@@ -255,7 +255,30 @@ fn expected_cells(b: &Spreadsheet) -> Vec<(String, String)> {
     v
 }
 
-fn check_run(o: &mut Outcome, books: &[Arc<Spreadsheet>], r: &RunOut, label: &str) {
+/// the parts a save of that workbook alone produces (saved twice: parts that differ between two solo saves,
+/// e.g. anything time-dependent, are left out of the comparison)
+pub type Solo = BTreeMap<String, Vec<u8>>;
+pub fn solo_parts(books: &[Arc<Spreadsheet>], light: bool) -> Vec<Option<(Solo, BTreeSet<String>)>> {
+    books
+        .iter()
+        .map(|b| {
+            let save1 = |b: &Spreadsheet| -> Option<Solo> {
+                let mut cur = std::io::Cursor::new(Vec::new());
+                let r = guard(|| if light { writer::xlsx::write_writer_light(b, &mut cur) } else { writer::xlsx::write_writer(b, &mut cur) });
+                match r {
+                    Ok(Ok(())) => crate::zipx::all_parts(&cur.into_inner()).ok(),
+                    _ => None,
+                }
+            };
+            let (a, c) = (save1(b)?, save1(b)?);
+            let names: BTreeSet<String> = a.keys().cloned().collect();
+            let stable: Solo = a.into_iter().filter(|(k, v)| c.get(k) == Some(v)).collect();
+            Some((stable, names))
+        })
+        .collect()
+}
+
+fn check_run(o: &mut Outcome, books: &[Arc<Spreadsheet>], r: &RunOut, solos: &[Option<(Solo, BTreeSet<String>)>], label: &str) {
     o.observations += 1;
     if let Some(s) = &r.stuck {
         // all savers are expected to be either parked at a hook or finished; anything else within 20 s is reported,
@@ -268,6 +291,23 @@ fn check_run(o: &mut Outcome, books: &[Arc<Spreadsheet>], r: &RunOut, label: &st
             Ok(bytes) => match decode_texts(bytes) {
                 Err(e) => o.div("output-corrupt", format!("{} saver {} schedule {:?}: {}", label, i, r.choices, e)),
                 Ok((cells, sst)) => {
+                    // (1) the whole package: every part that a solo save reproduces byte for byte must be there unchanged
+                    if let (Some((stable, names)), Ok(parts)) = (&solos[i], crate::zipx::all_parts(bytes)) {
+                        let got: BTreeSet<String> = parts.keys().cloned().collect();
+                        if &got != names {
+                            o.div("output-part-list-differs-from-solo-save", format!("{} saver {} schedule {:?}: parts {:?}, solo save {:?}", label, i, r.choices, got.symmetric_difference(names).collect::<Vec<_>>(), names.len()));
+                        }
+                        for (name, body) in stable {
+                            if let Some(b) = parts.get(name) {
+                                if b != body {
+                                    let class: String = name.chars().filter(|c| !c.is_ascii_digit()).collect();
+                                    o.div(format!("output-part-differs-from-solo-save:{}", class), format!("{} saver {} schedule {:?}: part {} differs from what a save of that workbook alone writes ({} vs {} bytes)", label, i, r.choices, name, b.len(), body.len()));
+                                }
+                            }
+                        }
+                        o.count("parts-compared-with-solo-save", stable.len() as u64);
+                    }
+                    // (2) text cells of the first sheet against the model, read without library code
                     let exp = expected_cells(&books[i]);
                     if cells != exp {
                         o.div("output-differs-from-solo-save", format!("{} saver {} schedule {:?}: file shows {:?}, the workbook holds {:?}", label, i, r.choices, cells, exp));
@@ -357,7 +397,8 @@ fn run_unit(u: &Unit, seed: u64, sched: &Arc<Sched>, o: &mut Outcome) -> (u64, u
             let mut key = vec![k, light as usize, nsavers, fnv(mode) as usize % 997];
             key.extend(r.grants.iter());
             distinct.insert(key);
-            check_run(o, &books, &r, &format!("random#{}.{} k={} {} savers={} {}", part, j, k, mode, nsavers, if light { "light" } else { "standard" }));
+            let solos = solo_parts(&books, light);
+            check_run(o, &books, &r, &solos, &format!("random#{}.{} k={} {} savers={} {}", part, j, k, mode, nsavers, if light { "light" } else { "standard" }));
             if r.stuck.is_some() {
                 break;
             }
@@ -365,13 +406,14 @@ fn run_unit(u: &Unit, seed: u64, sched: &Arc<Sched>, o: &mut Outcome) -> (u64, u
         return (schedules, distinct.len() as u64, false);
     }
     let books = make_books(u.k, u.mode, u.mode == "shared-reference", u.nsavers);
+    let solos = solo_parts(&books, u.light);
     let mut prefix: Vec<usize> = vec![];
     loop {
         let pfx = prefix.clone();
         let r = run_schedule(&books, u.light, sched, &mut |step, _n| if step < pfx.len() { pfx[step] } else { 0 });
         schedules += 1;
         distinct.insert(r.grants.clone());
-        check_run(o, &books, &r, &u.label);
+        check_run(o, &books, &r, &solos, &u.label);
         if r.stuck.is_some() || o.divs.len() > 20 || (u.cap > 0 && schedules >= u.cap) {
             complete = false;
             break;
@@ -433,6 +475,9 @@ pub fn unit_cmd(args: &Args) {
     }
     if let Some(i) = &o.inconclusive {
         out.push_str(&format!("INCONCLUSIVE\t{}\n", esc(i)));
+    }
+    for (k, n) in &o.counters {
+        out.push_str(&format!("COUNT\t{}\t{}\n", esc(k), n));
     }
     out.push_str("END\n");
     print!("{}", out);
@@ -501,6 +546,7 @@ pub fn run(args: &Args) {
                             }
                         }
                         "DIV" => o.div(unesc(f[1]), unesc(f[2])),
+                        "COUNT" => o.count(&unesc(f[1]), f[2].parse().unwrap_or(0)),
                         "INCONCLUSIVE" => o.inconclusive = Some(unesc(f[1])),
                         _ => {}
                     }
@@ -557,7 +603,8 @@ pub fn stress_rounds_with(rounds: u64, seed: u64, o: &mut Outcome, maxk: u32, li
             .collect();
         let outs: Vec<Result<Vec<u8>, String>> = hs.into_iter().map(|h| h.join().unwrap_or_else(|_| Err("saver thread died".into()))).collect();
         let r = RunOut { grants: vec![], choices: vec![], options: vec![], outs, log: vec![], stuck: None };
-        check_run(o, &books, &r, &format!("stress#{} k={} {} savers={}", j, k, mode, nsavers));
+        let solos = solo_parts(&books, light);
+        check_run(o, &books, &r, &solos, &format!("stress#{} k={} {} savers={}", j, k, mode, nsavers));
     }
     rounds
 }
